@@ -9,7 +9,7 @@ import indx_common as X
 
 ID = "C11"
 LEAN_MODULES = ["CatiiProps.C11"]
-USES_TRANSLATOR = True
+USES_TRANSLATOR = ['fit_dtype', 'consts', 'indx_save', 'indx_load']
 RULE = ("cases as C10; for each: impl bytes == bytes of an independent encoder written from the format docstring (and == "
         "the Lean model's bytes); independent decoder recovers the data from impl bytes; impl loader recovers the data from "
         "independently encoded bytes for every legal coordinate word size >= the narrowest and row-id word sizes 1/2/4/8 (also with entry lengths that add up past the range of a 1- or 2-byte row-id word); "
